@@ -16,11 +16,11 @@ EXPLANATION = ('Mechanisms of the periodic tessellation, each taken from the MIR
 def check(run):
     funcs, info = engine.load_mir('ibig')
     run.mir_info.append(info)
-    nnrules.shift_reciprocity(run, funcs, 'C06')
-    GR.cuboid(run, funcs, 'C06')
-    GR.right_loc(run, funcs, 'C06')
-    GR.build_loop(run, funcs, 'C06')
-    GR.build_loop_multi(run, funcs, 'C06')
+    run.guard(nnrules.shift_reciprocity, funcs, 'C06')
+    run.guard(GR.cuboid, funcs, 'C06')
+    run.guard(GR.right_loc, funcs, 'C06')
+    run.guard(GR.build_loop, funcs, 'C06')
+    run.guard(GR.build_loop_multi, funcs, 'C06')
     run.assume('f64 read as exact reals; whole-pipeline consequences (replicated tessellation, no wall faces on periodic axes) outside')
     return run.finish(LEVEL, EXPLANATION, trusted=['rustc -Zunpretty=mir', 'z3 5.1.0 / 4.8.12, cvc5 1.0.3', 'glam / std models of mirsym'])
 
